@@ -810,6 +810,9 @@ func c14Saturation(p *core.Program, r *core.Report) {
 					}
 					continue
 				}
+				if how[0] == 'r' && how[5] == 'O' && (o.Cmp(L("dmin"), token.LEQ, b.val) != ord.True || o.Cmp(b.val, token.LEQ, L("dmax")) != ord.True) && bad == "" {
+					bad = fmt.Sprintf("order type %s: %s is given a base value outside what the bit depth can represent; the bit-plane comparison reads only its low bitDepth bits and so compares with a different number", o, how)
+				}
 				if got != exp && bad == "" {
 					bad = fmt.Sprintf("order type %s: protocol answers via %s, so a stored value v is selected = %v, but v %s value is %v", o, how, got == ord.True, op.cmp, exp == ord.True)
 				}
@@ -897,6 +900,12 @@ func c14Saturation(p *core.Program, r *core.Report) {
 				}
 				if o.Cmp(a, token.LEQ, b) != ord.True && bad == "" {
 					bad = fmt.Sprintf("order type %s: hands rangeBetween the reversed interval [%s, %s]", o, a, b)
+				}
+				// the plane comparisons read only bitDepth bits of a bound: it must be representable
+				for _, bd := range []ord.Lin{a, b} {
+					if (o.Cmp(L("dmin"), token.LEQ, bd) != ord.True || o.Cmp(bd, token.LEQ, L("dmax")) != ord.True) && bad == "" {
+						bad = fmt.Sprintf("order type %s: hands rangeBetween the bound %s-Base, which lies outside what the bit depth can represent; the bit-plane comparison reads only its low bitDepth bits and so compares with a different number", o, bd)
+					}
 				}
 				got := triAnd(o.Cmp(a, token.LEQ, L("v")), o.Cmp(L("v"), token.LEQ, b))
 				if got != ord.Unknown && exp != ord.Unknown && got != exp && bad == "" {
